@@ -45,7 +45,12 @@ func (g *respGen) headers() M {
 }
 
 func (g *respGen) body() M {
-	switch g.rng.Intn(9) {
+	switch g.rng.Intn(11) {
+	case 9:
+		// two media types for one response: JSON wins
+		return M{"application/json": M{"schema": Ref("schemas", "Err")}, "application/octet-stream": M{"schema": M{"type": "string", "format": "binary"}}}
+	case 10:
+		return M{"text/csv": M{"schema": Prim("string", "")}, "application/octet-stream": M{"schema": M{"type": "string", "format": "binary"}}}
 	case 0, 1:
 		return nil
 	case 2:
@@ -109,6 +114,7 @@ func ResponseCases(seed int64, n int) []Case {
 		nops := 2 + rng.Intn(4)
 		usedDefault := map[string]bool{}
 		usedNumbered := map[string]bool{}
+		rootUsed := false
 		for o := 0; o < nops; o++ {
 			path := "/r" + letters(o)
 			method := []string{"get", "post", "put", "delete"}[rng.Intn(4)]
@@ -158,6 +164,22 @@ func ResponseCases(seed int64, n int) []Case {
 			}
 			if rng.Intn(3) == 0 {
 				path += "/"
+			}
+			// path shapes from which goag derives the operation name when
+			// there is no operationId (two code sites must agree on it)
+			switch rng.Intn(10) {
+			case 0:
+				if !rootUsed {
+					path, rootUsed = "/", true
+				}
+			case 1:
+				path = "/r" + letters(o) + "/{pid}"
+				op["parameters"] = L{ParamNode("pid", "path", true, Prim("string", ""))}
+			case 2:
+				path = "/r" + letters(o) + "/{pid}/"
+				op["parameters"] = L{ParamNode("pid", "path", true, Prim("integer", "int64"))}
+			case 3:
+				path = "/r-" + letters(o) + "/sub_part.v"
 			}
 			d.Op(path, method, op)
 		}
